@@ -56,6 +56,8 @@ fn main() {
                 "C05" => checks::c05::run(&tier, &args),
                 "C14" => checks::c14::run(&tier, &args),
                 "C19" => checks::c19::run(&tier, &args),
+                "C10" => checks::pubd::run_c10(&tier, &args),
+                "C11" => checks::pubd::run_c11(&tier, &args),
                 _ => { eprintln!("unknown property {id}"); 2 }
             };
             std::process::exit(code);
